@@ -12,6 +12,16 @@ SLOTTED = {'hp1': 1, 'hp2': 2, 'hp3': 3, 'hp5': 5, 'he1': 1, 'he2': 2, 'he3': 3,
 NO_CUSTOM_DELETER = {'lfrc', 'lfrc2'}
 
 
+# Directed three-role scenarios (harness-level sig/wai/wex order the threads, so that a low preemption bound reaches them):
+# thread 0 runs reclamation points (scan / epoch advance) freely, thread 1 holds a guard on a node, thread 2 retires that node while
+# it is held and then exits (abandoned / orphaned retired nodes) or just leaves its critical region (abandon strategies).
+DIRECTED = ['swp1:0;acq0:0,sig1,wex2,tch0;wai1,swp0:0',
+            'swp1:0,swp1:0;acqe0:0,sig1,wex2,tch0,cpy0:1,rst0,tch1;wai1,swp0:0',
+            'swp1:0,acq2:0;acq0:0,sig1,wai2,tch0;wai1,swp0:0,sig2,acq1:1,tch1',
+            'rgn1,swp1:0,rgn0;rgn1,acq0:0,sig1,wex2,tch0,rgn0;wai1,swp0:0',
+            'swp1:0;acq0:0,sig1,wex2,wex3,tch0;wai1,swp0:0;@2:swp0:0']
+
+
 def guards_needed(prog):
     """largest number of simultaneously used guards per thread (upper bound: distinct guard indices)"""
     m = 0
@@ -60,13 +70,13 @@ def postprocess_allocsites(binary, tracefile):
 POST['reclaim'] = postprocess_allocsites
 
 
-def run_client(ctx, jobs, pb, max_exec, mode='dfs', runs=0, nsh=14, tcb=False):
+def run_client(ctx, jobs, pb, max_exec, mode='dfs', runs=0, nsh=14, tcb=False, tag='rc'):
     """jobs: list of program strings. Explores in nsh shards, validates against Reclamation_Hist."""
     import random
     jobs = list(jobs)
     random.Random(ctx.seed).shuffle(jobs)
     nsh = max(1, min(nsh, len(jobs)))
-    tag = 'rc_%s' % mode
+    tag = '%s_%s' % (tag, mode)
     xs = run_parallel([lambda i=i: explore(ctx, '%s_%d' % (tag, i), 'reclaim', jobs[i::nsh], mode=mode, pb=pb, max_exec=max_exec, runs=runs)
                        for i in range(nsh)], maxw=nsh)
     for x in xs:
